@@ -20,6 +20,9 @@ CHECKS = {
  'C04': dict(cat='exploration', tech=SYMX + '; oracle = reference interpreter',
    text='Each of the 20 loop forms alone (exhaustive over populations and break positions) and seeded nestings of two forms (optionally inside a routine) run on the real VM with symbolic counts (0..3 outer, 0..2 inner), symbolic from/to bounds and cycle starts, on 5 light populations; z3 shows the sequence of loop-variable values, light names and commands equals the documented one on every feasible path.',
    note='Bounded counts and nesting depth 2; populations of 0..4 plain lights over 2 groups x 2 locations. Real arithmetic for the interpolation.', ref='4/C04'),
+ 'C05': dict(cat='exploration', tech='static instruction-graph checks + ' + SYMX + ' with a control-flow monitor',
+   text='Per program shape (routine definitions at every top-level position and inside if/else/repeat/while bodies, exhaustively from a small grammar; plus seeded general, routine and loop shapes): statically, for every JUMP of the loaded image, target in range, in the same routine/main segment, never a routine header, and the same instruction object as in the parser listing (loader invariance), every JSR names a loaded routine; dynamically, on every feasible path with symbolic conditions, pc is inside a routine body exactly while that routine is active, and at exit the call stack is at the root frame, the evaluation stack is empty and pc is at the end.',
+   note='Static part is all-paths by construction; dynamic part bounded by loop counts <=3 and paths per shape. Reads Machine internals (_reg.pc, _call_stack, _vm_math._eval_stack) from the harness process.', ref='4/C05'),
 }
 PENDING = {
 }
